@@ -2,6 +2,7 @@
    configured in the fault-handler table. *)
 From CFDP Require Import Base Fs Handler Dest Source Mib HandlerSpec.
 From CFDP.gen Require Import Tables.
+From CFDP.proofs Require Import GuardProofs.   (* admission_exceptions *)
 From RecordUpdate Require Import RecordSet.
 Import RecordSetNotations.
 
@@ -34,9 +35,11 @@ Proof.
   cbn. eexists. split; [reflexivity|]. cbn. repeat split; try reflexivity. exact Ht.
 Qed.
 
+(* handler ABANDON (after the F25-F27 repair): the transaction is reset, the abandon callback runs once and the
+   running state machine call is unwound with the internal code E_ABANDONED *)
 Lemma dest_abandon : forall s cond a b,
   p_tid (d_p s) = Some (a, b) -> get_fault_handler (l_faults (d_cfg s)) cond = Some FH_ABANDON ->
-  exists s', declare_fault cond s = (s', Ok FH_ABANDON) /\
+  exists s', declare_fault cond s = (s', Err E_ABANDONED) /\
     log_d s' = EvFault FH_ABANDON a b cond (p_progress (d_p s)) :: log_d s /\
     d_state s' = ST_IDLE /\ d_step s' = DS_IDLE /\ d_p s' = fresh_params /\ d_queue s' = d_queue s /\
     e_fs (d_env s') = e_fs (d_env s).
@@ -57,6 +60,67 @@ Lemma dest_not_in_table : forall s cond a b,
   declare_fault cond s = (s, Err E_VALUE).
 Proof.
   intros s cond a b Ht Hf. unfold declare_fault, gp, gets, bind. rewrite Ht, Hf. reflexivity.
+Qed.
+
+(* ------------------------------------------------------------------ abandonment unwinds the running call *)
+(* the exact state after an abandoning declaration: parameters, state and step reset, the callback
+   logged, every other component as before *)
+Lemma dest_abandon_unwinds : forall s cond a b,
+  p_tid (d_p s) = Some (a, b) -> get_fault_handler (l_faults (d_cfg s)) cond = Some FH_ABANDON ->
+  declare_fault cond s =
+    (mkDst (d_cfg s) ST_IDLE DS_IDLE (d_states_tid s) (d_ready s) (d_queue s) fresh_params
+           (mkEnv (e_now (d_env s)) (e_fs (d_env s)) (e_reject_writes (d_env s))
+                  (EvFault FH_ABANDON a b cond (p_progress (d_p s)) :: log_d s)),
+     Err E_ABANDONED).
+Proof.
+  intros s cond a b Ht Hf.
+  unfold declare_fault, gp, gets, bind. rewrite Ht, Hf.
+  destruct s as [cfg st step stid ready q p env]; destruct env as [nw fs rw lg].
+  reflexivity.
+Qed.
+
+(* catch_abandoned turns exactly the code E_ABANDONED into a normal return (state kept) and is
+   transparent for every other outcome *)
+Lemma dest_abandoned_is_caught : forall (m : D unit) s,
+  (forall s', m s = (s', Err E_ABANDONED) -> catch_abandoned m s = (s', Ok tt)) /\
+  (forall s' u, m s = (s', Ok u) -> catch_abandoned m s = m s) /\
+  (forall s' e, m s = (s', Err e) -> e <> E_ABANDONED -> catch_abandoned m s = m s).
+Proof.
+  intros m s. unfold catch_abandoned, catch. split; [|split].
+  - intros s' H. rewrite H. reflexivity.
+  - intros s' u H. rewrite H. reflexivity.
+  - intros s' e H Hne. rewrite H.
+    destruct (e =? E_ABANDONED) eqn:E; [apply Z.eqb_eq in E; contradiction | reflexivity].
+Qed.
+
+Lemma catch_abandoned_never_abandoned : forall (m : D unit) s, snd (catch_abandoned m s) <> Err E_ABANDONED.
+Proof.
+  intros m s. unfold catch_abandoned, catch.
+  destruct (m s) as [s' [u|e]]; [discriminate|].
+  destruct (e =? E_ABANDONED) eqn:E; [discriminate|].
+  cbn. intro H. inversion H. subst e. discriminate.
+Qed.
+
+(* the admission check raises library codes (and ValueError) only *)
+Lemma admission_never_abandoned : forall p s, snd (check_inserted_packet p s) <> Err E_ABANDONED.
+Proof.
+  intros p s H.
+  destruct (proj1 (admission_exceptions p (src_init (d_cfg s) 0 0) s E_ABANDONED) H) as [Hin | [He _]].
+  - cbn in Hin. repeat (destruct Hin as [Hin|Hin]; [discriminate Hin|]). exact Hin.
+  - discriminate He.
+Qed.
+
+(* the internal control code is never visible to the caller of state_machine *)
+Lemma dest_abandon_never_escapes : forall pkt s, snd (Dest.state_machine pkt s) <> Err E_ABANDONED.
+Proof.
+  intros pkt s. unfold Dest.state_machine.
+  match goal with |- snd (bind ?c (fun _ => catch_abandoned ?m) s) <> _ =>
+    generalize m; intro body; assert (snd (c s) <> Err E_ABANDONED) as Hc end.
+  { destruct pkt as [p|]; [apply admission_never_abandoned | discriminate]. }
+  unfold bind.
+  match goal with |- snd (match ?x with _ => _ end) <> _ => destruct x as [s1 [u|e]] end.
+  - apply catch_abandoned_never_abandoned.
+  - exact Hc.
 Qed.
 
 (* ------------------------------------------------------------------ source handler *)
